@@ -155,10 +155,10 @@ func Gen(r *hx.Rng, tier string, w io.Writer) {
 		// applied; any single Put; a batch commit).  The loop that meets the error reports it, Run returns the error by itself
 		// or - if the failing write is one the node lives with - stops promptly when asked; nothing may hang
 		scen{mode: "agg", bt: 50, span: 900, sf: "state", sfat: 400},
-		scen{mode: "full", bt: 50, span: 900, prod: 600, sf: "state", sfat: 150},
+		scen{mode: "full", bt: 50, span: 900, prod: 600, sf: "state", sfat: 0},
 		scen{mode: "agg", bt: 50, span: 800, sf: "commit", sfat: 350},
 		scen{mode: "agg", bt: 40, span: 800, sf: "put", sfat: 300, sfn: 2},
-		scen{mode: "full", bt: 50, span: 900, prod: 500, sf: "commit", sfat: 200},
+		scen{mode: "full", bt: 50, span: 900, prod: 500, sf: "commit", sfat: 30},
 	)
 	n := 2
 	if tier == "thorough" {
